@@ -8,6 +8,8 @@ consuming it yields the explicit state `Started`.  An invariant `G` that holds f
 state and is preserved by the five micro-steps holds (as `PreStart ∨ G`) after every choice sequence.
 -/
 namespace QM.Sys
+set_option linter.unusedSectionVars false
+variable [Cfg]
 
 def W0init : WorkerSt := WorkerSt.empty.setProc 0 (Proc.sleeping 0)
 
